@@ -37,8 +37,15 @@ for patch in "$HERE"/selftest/mutants/*.patch "$HERE"/seeded/*/patch.diff; do
   if [ -n "$PAT" ] && [[ "$name" != *"$PAT"* ]]; then continue; fi
   expected="$(awk -F'\t' -v n="$name" '$1==n{print $2}' "$HERE/selftest/catalogue.tsv" 2>/dev/null)"
   git -C "$WORK" checkout -q -- . ; git -C "$WORK" clean -fdq
+  git -C "$WORK" checkout -q --detach "$(git -C /repo rev-parse HEAD)" 2>/dev/null
   if ! git -C "$WORK" apply "$patch" 2>/dev/null; then
-    printf "%-58s %-6s %-14s %s\n" "$name" "-" "$expected" "PATCH DOES NOT APPLY"; continue
+    # a seeded change written against an earlier commit: judge it on its base commit
+    base="$(sed -n 's/.*"base_commit": "\([0-9a-f]*\)".*/\1/p' "$(dirname "$patch")/meta.json" 2>/dev/null | head -1)"
+    if [ -n "$base" ] && git -C "$WORK" checkout -q --detach "$base" 2>/dev/null && git -C "$WORK" apply "$patch" 2>/dev/null; then
+      name="$name@$base"
+    else
+      printf "%-58s %-6s %-14s %s\n" "$name" "-" "$expected" "PATCH DOES NOT APPLY"; continue
+    fi
   fi
   if (cd "$WORK" && go build ./... >/dev/null 2>&1 && go test -vet=off -count=1 ./... >"$ROOT/suite.log" 2>&1); then suite=pass; else suite=FAIL; fi
   props="$expected"
